@@ -222,3 +222,45 @@ def exception_name(node: ast.AST | None) -> str | None:
         if isinstance(exc, ast.Attribute):
             return exc.attr
     return None
+
+
+def paths_at_defaults(fn: ast.FunctionDef, nknown: int) -> list[Path]:
+    """Paths of fn on which every parameter beyond the first ``nknown`` positional ones takes its (constant) default: an
+    optional parameter added later, whose default is the previous behaviour, does not multiply the cases a rule sees."""
+    from .terms import NotEvaluable, eval_term, path_env, term
+
+    a = fn.args
+    pos = a.posonlyargs + a.args
+    defaults = dict(zip([p.arg for p in pos[len(pos) - len(a.defaults):]], a.defaults))
+    defaults.update({p.arg: d for p, d in zip(a.kwonlyargs, a.kw_defaults) if d is not None})
+    extra = {}
+    for p in pos[nknown:] + a.kwonlyargs:
+        d = defaults.get(p.arg)
+        if isinstance(d, ast.Constant) and (isinstance(d.value, (bool, int)) or d.value is None):
+            extra[('var', p.arg)] = d.value if d.value is not None else 0
+            if d.value is None:
+                extra[('var', p.arg)] = None
+    out = []
+    for path in function_paths(fn):
+        env: dict = {}
+        ok = True
+        for ev in path.events:
+            if ev[0] == 'cond':
+                t = term(ev[1], env)
+                val = None
+                if t in extra:
+                    val = bool(extra[t])
+                elif t[0] == 'cmp' and t[1] in ('is', 'isnot') and t[2] in extra and t[3] == ('const', 'None'):
+                    val = (extra[t[2]] is None) == (t[1] == 'is')
+                else:
+                    try:
+                        val = bool(eval_term(t, {k: v for k, v in extra.items() if v is not None}))
+                    except (NotEvaluable, TypeError):
+                        val = None
+                if val is not None and val != ev[2]:
+                    ok = False
+                    break
+            env = path_env(Path([ev]), env)
+        if ok:
+            out.append(path)
+    return out
